@@ -36,6 +36,7 @@ type Prog struct {
 	fnIDs     map[string]int
 	mu, mu2   sync.Mutex
 	tblOnce   sync.Once
+	cglobals  map[string]*constGlobal
 	VerifDir  string
 	tbl       *Tables
 	tblErr    error
@@ -179,6 +180,9 @@ func (P *Prog) resolveType(text, pkgPath string) (types.Type, error) {
 func (P *Prog) typeFromAST(e ast.Expr, pkgPath string) (types.Type, error) {
 	switch e := e.(type) {
 	case *ast.Ident:
+		if e.Name == "bytesvalue" {
+			return bytesT, nil
+		}
 		if obj := types.Universe.Lookup(e.Name); obj != nil {
 			if tn, ok := obj.(*types.TypeName); ok {
 				return tn.Type(), nil
